@@ -68,6 +68,8 @@ def birth_facts_since(clock0: int):
         e = EVENT.get(name)
         if e is None or e <= clock0:
             continue
+        if comp not in ("dv", "sa", "dh", "sh", "field") or not isinstance(arr.sort(), z3.ArraySortRef):
+            continue
         dom, rng = arr.sort().domain(), arr.sort().range()
         if comp in ("dv", "sa"):
             if isinstance(rng, z3.ArraySortRef):   # outer: V -> (index -> V)
